@@ -568,6 +568,9 @@ func qtyMarker(fr *frame, q structure) string {
 	if isSym(amt[1]) || isSym(q[3]) {
 		unsupported("resource.Quantity JSON model: symbolic scale or format")
 	}
+	if cached, _ := q[2].(string); cached != "" && !hasDec(cached) {
+		unsupported("resource.Quantity JSON model: symbolic amount with a cached concrete text")
+	}
 	key := fmt.Sprintf("%d_%v_%v", v.t.ID, amt[1], strings.NewReplacer(" ", "", "-", "n").Replace(fmt.Sprint(q[3])))
 	cp := make(structure, len(q))
 	copy(cp, q)
@@ -1260,6 +1263,9 @@ func init() {
 			cp := append(structure{}, v.(structure)...)
 			cp[0] = append(structure{}, cp[0].(structure)...)
 			cp[1] = append(structure{}, cp[1].(structure)...)
+			// the real parser caches the canonical text it was given in q.s (MarshalJSON and String
+			// return it while the quantity is not modified; reflect.DeepEqual sees it)
+			cp[2] = strings.Trim(st, "\"")
 			store(fr.i, qt, recv, cp)
 			return iface{}
 		}
